@@ -268,7 +268,10 @@ PROPS["C17"] = {
                    "the href codec are discharged; 'each distinct href exactly once' is covered only by the bounded HTTP "
                    "stand-in (DESIGN 6/C17).",
 }
-PROPS["C17"]["functions"] += ["xandikos.caldav.CalendarDataProperty.get_value_ext"]
+PROPS["C17"]["functions"] += ["xandikos.caldav.CalendarDataProperty.get_value_ext", W + "Backend.get_resources"]
+PROPS["C12"]["functions"] += ["xandikos.collation._match@bytes"]
+PROPS["C13"]["functions"] += [G + "GitStore.destroy", WEB + "StoreBasedCollection.destroy"]
+PROPS["C01"]["functions"] += [G + "GitStore.destroy", WEB + "StoreBasedCollection.destroy"]
 PROPS["C11"]["functions"] += ["xandikos.caldav.CalendarDataProperty.get_value_ext"]
 for _pid in ("C11", "C17"):
     PROPS[_pid].setdefault("replay", {})["xandikos.caldav.CalendarDataProperty.get_value_ext"] = HTTP
